@@ -33,6 +33,7 @@ def parseOptEnts (s : String) : Option (Option (List Ent)) :=
   if s == "nil" then some none else (parseEnts s).map some
 
 def parseRR (s : String) : Option RR :=
+  if s == "O" then some optRR else
   match s.splitOn "/" with
   | [k, ttl, o] => do
     let t ← ttl.toNat?
@@ -44,14 +45,16 @@ def parseRR (s : String) : Option RR :=
     else if k == "d" then some { kind := 'd', ttl := t, owner := o, target := x }
     else if k == "4" then (hexBytes x).map fun ip => { kind := '4', ttl := t, owner := o, ip := ip }
     else if k == "6" then (hexBytes x).map fun ip => { kind := '6', ttl := t, owner := o, ip := ip }
+    else if k == "s" then some { kind := 's', ttl := t, owner := o, target := x }
     else none
   | _ => none
 
 def parseRRs (s : String) : Option (List RR) := (listOf s).mapM parseRR
 
 def showRR (r : RR) : String :=
+  if r.kind == 'O' then "O" else
   let base := s!"{r.kind}/{r.ttl}/{r.owner}"
-  if r.kind == 'c' || r.kind == 'd' then base ++ "/" ++ r.target
+  if r.kind == 'c' || r.kind == 'd' || r.kind == 's' then base ++ "/" ++ r.target
   else if r.kind == '4' || r.kind == '6' then base ++ "/" ++ bytesHex r.ip
   else base
 
@@ -66,34 +69,55 @@ def parseSoa (s : String) : Option (Nat × Nat) :=
   | [a, b] => do some ((← a.toNat?), (← b.toNat?))
   | _ => none
 
+def mkDown (rc fl edes mark ans soas extra : String) : Option (Option Down) := do
+  let rcode ← rc.toNat?
+  let f ← flagsOf fl 4
+  let es ← (listOf edes).mapM (·.toNat?)
+  let a ← parseRRs ans
+  let ss ← (listOf soas).mapM parseSoa
+  let ex ← parseRRs extra
+  let mk ← (if mark == "n" then some Mark.none else if mark == "c" then some Mark.cached
+            else if mark == "a" then some Mark.attempt else if mark == "l" then some Mark.other else none)
+  match f with
+  | [ad, tc, opt, hasQ] =>
+    some (some { rcode := rcode, ad := ad, tc := tc, opt := opt, hasQ := hasQ,
+                 edes := if opt then es else [], mark := mk, ans := a, soas := ss, extra := ex })
+  | _ => none
+
 def parseDown (s : String) : Option (Option Down) :=
   if s == "-" then some none else
   match s.splitOn ";" with
-  | [rc, fl, edes, mark, ans, soas] => do
-    let rcode ← rc.toNat?
-    let f ← flagsOf fl 4
-    let es ← (listOf edes).mapM (·.toNat?)
-    let a ← parseRRs ans
-    let ss ← (listOf soas).mapM parseSoa
-    let mk ← (if mark == "n" then some Mark.none else if mark == "c" then some Mark.cached
-              else if mark == "a" then some Mark.attempt else if mark == "l" then some Mark.other else none)
-    match f with
-    | [ad, tc, opt, hasQ] =>
-      some (some { rcode := rcode, ad := ad, tc := tc, opt := opt, hasQ := hasQ,
-                   edes := if opt then es else [], mark := mk, ans := a, soas := ss })
-    | _ => none
+  | [rc, fl, edes, mark, ans, soas] => mkDown rc fl edes mark ans soas "-"
+  | [rc, fl, edes, mark, ans, soas, extra] => mkDown rc fl edes mark ans soas extra
   | _ => none
+
+def mkAResp (e rc ans ns extra : String) : Option AResp := do
+  let rcode ← rc.toNat?
+  let a ← parseRRs ans
+  let n ← parseRRs ns
+  let x ← parseRRs extra
+  let ek ← (if e == "n" then some AErr.none else if e == "g" then some AErr.generic
+            else if e == "a" then some AErr.attempt else if e == "w" then some AErr.work
+            else if e == "x" then some AErr.nilResp else if e == "q" then some AErr.noQueryer else none)
+  some { err := ek, rcode := rcode, ans := a, ns := n, extra := x }
 
 def parseAResp (s : String) : Option AResp :=
   match s.splitOn ";" with
-  | [e, rc, ans] => do
-    let rcode ← rc.toNat?
-    let a ← parseRRs ans
-    let ek ← (if e == "n" then some AErr.none else if e == "g" then some AErr.generic
-              else if e == "a" then some AErr.attempt else if e == "w" then some AErr.work
-              else if e == "x" then some AErr.nilResp else if e == "q" then some AErr.noQueryer else none)
-    some { err := ek, rcode := rcode, ans := a }
+  | [e, rc, ans] => mkAResp e rc ans "-" "-"
+  | [e, rc, ans, ns, extra] => mkAResp e rc ans ns extra
   | _ => none
+
+/-- the queried name: `w:<hex of the uncompressed wire name>` (rendered the way
+miekg renders it) or, legacy, the hex of a presentation string. -/
+def parseQName (s : String) : Option Name :=
+  if s.startsWith "w:" then do
+    let bs ← hexBytes (s.drop 2).toString
+    let ls ← parseWireName 130 bs
+    some (present ls)
+  else nameOfHex s
+
+def parseFlags (s : String) : Option (List Bool) :=
+  if s.length == 4 then (flagsOf s 4).map (· ++ [false, false, false]) else flagsOf s 7
 
 def parseClient (s : String) : Option IP :=
   match s.splitOn ":" with
@@ -102,7 +126,7 @@ def parseClient (s : String) : Option IP :=
 
 def showReply (r : Reply) : String :=
   if r.kind == .none then "none" else
-  s!"same={boolStr (r.kind == .pass)} rc={r.rcode} ad={boolStr r.ad} aq={r.aq} ede4={boolStr r.ede4} ans={showRRs r.ans}"
+  s!"same={boolStr (r.kind == .pass)} rc={r.rcode} ad={boolStr r.ad} aq={r.aq} ede4={boolStr r.ede4} ans={showRRs r.ans} ns={showRRs r.ns} ex={showRRs r.extra}"
 
 def showPErr : PErr → String
   | .ok => "ok" | .v4 => "v4" | .len => "len" | .byte8 => "byte8"
@@ -142,10 +166,12 @@ def step (st : State) (w : List String) : State × String :=
        s!"p={",".intercalate (cfg.prefixes.map showPrefix)} c={cfg.clients.length} z={zt} xa={cfg.exA.length} x6={cfg.exAAAA.length}")
     | _, _, _, _, _ => (st, "bad-op")
   | ["d64", "serve", cl, fl, qc, qt, qn, dn, ar] =>
-    match parseClient cl, flagsOf fl 4, qc.toNat?, qt.toNat?, nameOfHex qn, parseDown dn, parseAResp ar with
-    | some c, some [internal, rd, cd, wx], some qclass, some qtype, some qname, some down, some a =>
+    match parseClient cl, parseFlags fl, qc.toNat?, qt.toNat?, parseQName qn, parseDown dn, parseAResp ar with
+    | some c, some [internal, rd, cd, wx, replay, wire, twoQ], some qclass, some qtype, some qname, some down, some a =>
+      -- a ledger handed over as a context value does not cross the wire-born detach boundary
       let q : Query := { client := c, internal := internal, rd := rd, cd := cd, qclass := qclass,
-                         qtype := qtype, qname := qname, workExhausted := wx }
+                         qtype := qtype, qname := qname, workExhausted := wx && !wire,
+                         replay := replay, wire := wire, twoQ := twoQ && !wire }
       (st, showReply (serve st.cfg q down a))
     | _, _, _, _, _, _, _ => (st, "bad-op")
   | _ => (st, "bad-op")
